@@ -82,6 +82,27 @@ fn bdd_part<'a, T: IteTable<'a, BddPtr<'a>> + Default>(
         case.cnf.clauses
     );
     st.flag("cnf.partial_nonempty", m.iter().any(|x| x.is_some()));
+    // further formulas on the same builder: the clauses behind a contradicting pair of unit clauses (unsatisfiable, and
+    // found to be so before the last clause is conjoined), every second clause, and the first formula once more
+    if n >= 1 {
+        let mut unsat = vec![vec![(0u8, true)], vec![(0u8, false)]];
+        unsat.extend(case.cnf.clauses.iter().cloned());
+        let subset: Vec<Vec<Lit>> = case.cnf.clauses.iter().step_by(2).cloned().collect();
+        for (what, cl) in [("a contradicting pair of unit clauses followed by the same clauses", unsat), ("every second clause", subset), ("the first formula again", case.cnf.clauses.clone())] {
+            let c2 = CnfCase { clauses: cl };
+            let got = bdd_tt(b.compile_cnf(&c2.to_rsdd()));
+            ensure!(
+                got == c2.tt(),
+                "C05/cnf-bdd-wrong-function",
+                "a later compile_cnf on the same BDD builder ({}) denotes {:?}, the CNF {:?} denotes {:?}",
+                what,
+                got,
+                c2.clauses,
+                c2.tt()
+            );
+        }
+        st.bump("cnf.further_formulas_on_the_same_bdd_builder");
+    }
     // the dtree plan on this builder too (its order is unrelated to the elimination order, either cache,
     // small unique table)
     if !case.cnf.clauses.is_empty() {
